@@ -93,6 +93,14 @@ class Fn:
         self._defs = None
         self._rpo = None
 
+    def param_names(self):
+        """names of the MIR parameters _1.._n (from debug info; 'arg<i>' when unnamed)"""
+        names = {}
+        for nm, place in self.d.get("debug") or []:
+            if isinstance(place, list) and len(place) == 2 and not place[1] and 1 <= place[0] <= self.arg_count:
+                names.setdefault(place[0], nm)
+        return [names.get(i, "arg%d" % i) for i in range(1, self.arg_count + 1)]
+
     def where(self):
         return "%s:%d" % (self.file, self.line)
 
